@@ -509,6 +509,31 @@ def call(px, st, name, t, args, fid, fn):
         cur = st.iters.setdefault(it, {'k': ('e', st.uid(), 0)})
         st.events.append(('peek', it, cur['k'], t['sp']))
         return [(st, ('peekres', it, cur['k']))]
+    if re.search(r'iter::Peekable::<I>::next_if$', n) and len(args) == 2:
+        # next_if(pred): look at the next element; take it iff there is one and pred(&elem)
+        it = iter_id(px, st, args[0])
+        cur = st.iters.setdefault(it, {'k': ('e', st.uid(), 0)})
+        k = cur['k']
+        st.events.append(('peek', it, k, t['sp']))
+        probe = ('peekres', it, k)
+        outs = []
+        for tag, s2 in px.decide_tag(st, probe):
+            if tag == 'neg':
+                outs.append((s2, ('adt', 'core::std::option::Option', 'None', ())))
+                continue
+            elem = ('ref', ('T', it, k))
+            for s3, rv in px.call_closure(s2, args[1], [('cref', elem)]):
+                if rv == ('PANIC',):
+                    outs.append((s3, rv))
+                    continue
+                for b, s4 in px.decide_bool(s3, rv):
+                    if b:
+                        s4.iters[it] = {'k': ('e', k[1], k[2] + 1)}
+                        s4.events.append(('next', it, k, t['sp']))
+                        outs.append((s4, ('adt', 'core::std::option::Option', 'Some', (elem,))))
+                    else:
+                        outs.append((s4, ('adt', 'core::std::option::Option', 'None', ())))
+        return outs
     if re.search(r'as std::iter::Iterator>::next$', n) or n.endswith('iter::Iterator::next'):
         it = iter_id(px, st, args[0])
         cur = st.iters.setdefault(it, {'k': ('e', st.uid(), 0)})
